@@ -87,6 +87,10 @@ type cursor struct {
 	// see [updateWordRIOdd]
 	isPrevWordRIOdd bool
 
+	// the rune carrying the class stored in prevLine, that is the base of
+	// a combining sequence (see rules LB9 and LB10)
+	prevLineRune rune
+
 	prevPrevLine lineBreakClass // the Line Break Class at index i-2 (see rules LB9 and LB10 for edge cases)
 	prevLine     lineBreakClass // the Line Break Class at index i-1 (see rules LB9 and LB10 for edge cases)
 	line         lineBreakClass // the Line Break Class at index i
